@@ -18,6 +18,7 @@ Inductive cev :=
 | CReadLock (block slot : nat) | CReadUnlock (block slot : nat)
 | CWriteLock (block slot : nat) | CWriteUnlock (block slot : nat)
 | CDataLock (block : nat) (write : bool) | CDataUnlock (block : nat) (write : bool)
+| CAccess (block slot : nat)             (* a pointer to the content of a child slot is requested *)
 | CRmw (delta : Z)
 | CAlloc (block : nat) | CFree (block : nat).
 
@@ -184,15 +185,15 @@ Section Conc.
         match slot_lookup (c_slots s) (i :: p) with
         | Some e =>
             let cont := if keep then MCloneResult (i :: p, e) :: rest else rest in
-            (with_t s (set_cont t cont), [CReadLock b i; CReadUnlock b i])
+            (with_t s (set_cont t cont), [CReadLock b i; CAccess b i; CReadUnlock b i])
         | None =>
             (* miss: build the candidate (a node candidate allocates a NodeData block) *)
             if child_is_node p i then
               let c := c_next s in
               let s' := mkC (c_rc s) (c_slots s) (c_wlock s) (S c) (c :: c_live s) (c_freed s) (c_data s) (c_torn s) (c_payload_drops s) (c_threads s) in
-              (with_t s' (set_cont t (MWrite p i (Some c) keep :: rest)), [CReadLock b i; CReadUnlock b i; CAlloc c])
+              (with_t s' (set_cont t (MWrite p i (Some c) keep :: rest)), [CReadLock b i; CAccess b i; CReadUnlock b i; CAlloc c])
             else
-              (with_t s (set_cont t (MWrite p i None keep :: rest)), [CReadLock b i; CReadUnlock b i])
+              (with_t s (set_cont t (MWrite p i None keep :: rest)), [CReadLock b i; CAccess b i; CReadUnlock b i])
         end
     | MWrite p i cand keep =>
         let b := block_of (c_slots s) p in
@@ -201,7 +202,7 @@ Section Conc.
             (* we are first: install *)
             let e := match cand with Some c => ENode c | None => EToken b end in
             let s' := mkC (c_rc s) ((i :: p, e) :: c_slots s) (c_wlock s) (c_next s) (c_live s) (c_freed s) (c_data s) (c_torn s) (c_payload_drops s) (c_threads s) in
-            (with_t s' (set_cont t (MRead p i false keep :: rest)), [CWriteLock b i; CWriteUnlock b i])
+            (with_t s' (set_cont t (MRead p i false keep :: rest)), [CWriteLock b i; CAccess b i; CWriteUnlock b i])
         | Some _ =>
             (* another thread was first: discard the candidate, keeping the write lock meanwhile *)
             let s' := mkC (c_rc s) (c_slots s) ((p, i) :: c_wlock s) (c_next s) (c_live s) (c_freed s) (c_data s) (c_torn s) (c_payload_drops s) (c_threads s) in
@@ -209,7 +210,7 @@ Section Conc.
                          | Some c => [MRmwInternal 2 []; MRmwInternal (-1) [CFree c]; MRmwInternal (-1) [CWriteUnlock b i]]
                          | None => [MRmwInternal 1 []; MRmwInternal (-1) [CWriteUnlock b i]]
                          end in
-            (with_t s' (set_cont t (loser ++ MRead p i false keep :: rest)), [CWriteLock b i])
+            (with_t s' (set_cont t (loser ++ MRead p i false keep :: rest)), [CWriteLock b i; CAccess b i])
         end
     | MRmwInternal d after =>
         (* apply the non-blocking events that follow: frees and the release of the write lock *)
@@ -256,7 +257,7 @@ Section Conc.
         let wl := match more with [] => c_wlock s | _ => (p, i) :: c_wlock s end in
         let s' := mkC (c_rc s) (slot_remove (c_slots s) (i :: p)) wl (c_next s) (c_live s) (c_freed s)
                       (data_remove (c_data s) (i :: p)) (c_torn s) (c_payload_drops s + dr) (c_threads s) in
-        (with_t s' (set_cont t (more ++ rest)), CWriteLock b i :: evs)
+        (with_t s' (set_cont t (more ++ rest)), CWriteLock b i :: CAccess b i :: evs)
     | MData p o =>
         let b := block_of (c_slots s) p in
         let cur := data_lookup (c_data s) p in
